@@ -66,6 +66,13 @@ def _run(prog):
             out.append([name, serial.get(id(c), -1)])
         return out
 
+    import itertools
+    templates = [[]] + [list(p) for p in itertools.permutations(TYPES, 2)] + [list(TYPES), list(TYPES)[::-1]]
+
+    def hasall(fn):
+        # templates of several types (and the empty one): has_class_component(T1, T2, ...) / has_component(T1, T2, ...)
+        return [[tpl, bool(fn(*[TYPES[n] for n in tpl]))] for tpl in templates]
+
     def obs():
         classes = []
         for n in CLASSES:
@@ -78,10 +85,11 @@ def _run(prog):
                 r2 = c.get_class_component(t)
                 get.append([tn, serial.get(id(r1), -1) if (r1 is not None and r1 is r2) else (0 if (r1 is None and r2 is None) else -2)])
             classes.append({"cls": n, "comps": comp_list(c.components), "len": len(c), "tag": c.tag if isinstance(c.tag, int) else -99,
-                            "contains": [[tn, bool(t in c) and bool(c.has_class_component(t))] for tn, t in TYPES.items()], "get": get})
+                            "contains": [[tn, bool(t in c) and bool(c.has_class_component(t))] for tn, t in TYPES.items()], "get": get,
+                            "hasall": hasall(c.has_class_component)})
         return {"classes": classes,
                 "inst": [{"cls": n, "tag": (-98 if i in unread else (a.tag if isinstance(a.tag, int) else -99)), "comps": comp_list(a.components),
-                          "len": len(a), "api": [inst_api(a, tn, t) for tn, t in TYPES.items()]} for i, (n, a) in enumerate(insts)]}
+                          "len": len(a), "api": [inst_api(a, tn, t) for tn, t in TYPES.items()], "hasall": hasall(a.has_component)} for i, (n, a) in enumerate(insts)]}
 
     def inst_api(a, tn, t):
         has = bool(t in a) and bool(a.has_component(t))
